@@ -1,4 +1,5 @@
 """Building real Arm objects and an independent NumPy/SciPy reference for their kinematics (shared by C05-C08, C13, C14, C17)."""
+import random
 import math, os, io, contextlib
 import numpy as np
 import scipy.linalg as sla
@@ -83,6 +84,13 @@ def build(rnd, kind='six_r', base6=None, limits=None):
     with contextlib.redirect_stdout(io.StringIO()):
         arm = Arm(tm(list(base6)), S.copy(), tm(M.copy()), homes.copy(), axes.copy())
         n = S.shape[1]
+        if isinstance(limits, str) and limits == 'random':
+            # asymmetric per-joint limits (|lower| != upper), so that requests can leave the limits on one side only
+            r2 = random.Random(rnd.randrange(1 << 30))
+            if r2.random() < 0.3:
+                limits = None
+            else:
+                limits = (np.array([-r2.uniform(0.3, 2 * math.pi) for _ in range(n)]), np.array([r2.uniform(0.3, 2 * math.pi) for _ in range(n)]))
         if limits is None:
             limits = (np.ones(n) * -2 * math.pi, np.ones(n) * 2 * math.pi)
         arm.setJointProperties(np.array(limits[0], dtype=float), np.array(limits[1], dtype=float))
